@@ -62,6 +62,14 @@ CLAIMED = {
          "node stays on the frontier and the pipestance state is failed never complete, consumers wait and submit nothing, independent stages "
          "are unaffected, invalid outputs write _errors and never _complete; LocalJobManager.Enqueue with the job process replaced by an arbitrary outcome per attempt leaves _errors behind for every failed process, re-runs only spawn failures and at most maxRetries times.",
          "Trusted: go/ssa, symgo, z3; the OS-boundary and AST/JSON stubs listed in the evidence (each returns an arbitrary outcome within its contract); the assumed representation invariant PhaseInv; the hand-built graph (one fork per node, <=2 chunks, P{PRE,A,C,Q{R{B}}}) and the MRO text of the real-graph fixture (instantiated by the real compiler and runtime inside the engine). Dynamic fork expansion and static fork enumeration run on instantiated pipelines (H_C01_*). Outside: real processes and job-manager queues. Also outside: mrjob (how the monitor turns an exit status into _errors), transient-error regexps and mrp attemptRetry, mrp exit code, restart after the fault is removed.", "DESIGN.md §4 (C06)"),
+ "C07": ("Partial (one binding between two stages over a 13-type family): for every pair (DST, SRC) of int, float, string, bool, a file type, int[], float[], int[][], "
+         "map<int>, map<float>, two structs (one a superset of the other) and an array of structs the program text `CONSUMER(x = PRODUCER.o)` is generated and compiled by "
+         "the real compiler; the oracle is the documented conversion list (identity, int->float, string<->file type, equal array depth / typed map with assignable "
+         "elements, struct->struct with all fields present). Accepted exactly when convertible; a rejection names file and line of the binding; for accepted pairs a "
+         "generated conforming SRC value (arbitrary leaves, undeclared struct fields) filtered to DST - the runtime's step at the stage boundary - validates against DST.",
+         "Trusted: go/ssa, symgo, z3, the assignability oracle and the reference JSON decoder in the harness. Outside: every other program shape (projections, map-call "
+         "dimensions, literals, untyped maps, missing/unknown parameters, split consistency), leaf decoding, routing (C01).",
+         "DESIGN.md §4 (C07)"),
  "C08": ("Every byte string up to 3 (thorough 4) bytes is run symbolically through the real lexer step, the scanner loop, and the whole "
          "expression parser (yacc tables + grammar actions); 19/20-digit integer tokens and 8-hex-digit \\U escapes get their own harnesses. "
          "Include resolution (parseSource/getIncludes/checkIncludes/merge) runs on 1..3 (4) files with an arbitrary include relation: an error exactly for reachable cycles, no unbounded recursion. "
@@ -152,7 +160,6 @@ CLAIMED = {
 }
 
 NOT_APPLICABLE = {
- "C07": "solver-based checking cannot reach it: acceptance is decided by a type checker walking heap-allocated ASTs of unbounded shape and by encoding/json-driven validation (reflection); fixing the program shape would reduce to enumerating concrete programs (DESIGN.md §5)",
 }
 
 PENDING = {}
